@@ -12,7 +12,7 @@ I->S: histories explored by TLC (exhaustive exports, long simulated ones, and th
       the real projection is recorded and MetaJournalTrace.tla replays the history and demands
       equality, evaluating the property invariants in every state.  The driver evaluates the
       property predicates on the real state too (that gives a violation its signature)."""
-import json, random
+import json, os, random
 from concurrent.futures import ThreadPoolExecutor
 from vlib import Infra
 
@@ -44,6 +44,8 @@ def run(ctx):
                ("MetaJournal_mc_chain_big.cfg", "source -> compact aggregator -> agent, 4 edits"),
                ("MetaJournal_mc_chain3_big.cfg", "source -> compact aggregator -> two agents"),
                ("MetaJournal_mc_plain_big.cfg", "source -> plain aggregator -> agent")]
+    if os.environ.get("VERIF_SELFTEST"):
+        mcs = []  # tools/selftest mutates the code, not the model: only the histories are needed
     exports = [("names", "MetaJournal_beh.cfg", None), ("chain", "MetaJournal_beh_chain.cfg", None),
                # histories after which the pinned tree (spec constants OrigNames / OrigSkip) breaks the property
                ("orig-names", "MetaJournal_orig_big.cfg" if th else "MetaJournal_orig.cfg", None),
